@@ -25,6 +25,8 @@ def exprs_of(op):
         return [t.expression for t in op.terms]
     if isinstance(op, R.Join):
         return [op.predicate]
+    if isinstance(op, R.PartialJoin):
+        return [op.binary.predicate]
     return []
 
 
